@@ -21,10 +21,13 @@ Transliteration of the configuration path of the `tackler` binary (`tackler-cli/
 | `effective`                   | `run` up to and including `cli.get_input_type(&settings)?`                 |
 | `selectsAll`                  | `ras.is_empty()` in `BalanceReporter::acc_selector`, `RegisterReporter::get_acc_selector`, `EquityExporter::get_acc_selector` |
 
-The model is the tree **with the proposed fixes F15, F191, F192 applied** (see `fixes/`):
+The model is the tree **with the proposed fixes F15, F191, F192, F193 applied** (see `fixes/`):
 * F15  – `get_overlaps` drops empty patterns from `--accounts` (so `--accounts ""` is "all accounts");
 * F191 – the file's `report.commodity` is resolved only when `--report.commodity` is absent;
-* F192 – `--input.fs.ext` strips one leading `.` exactly as `kernel.input.fs.suffix` does.
+* F192 – `--input.fs.ext` strips one leading `.` exactly as `kernel.input.fs.suffix` does;
+* F193 – `--input.fs.ext` conflicts with the `--input.git.*` options (as `--input.fs.dir` does). On the
+  pinned tree clap waives "`ext` requires `dir`" when the missing `dir` conflicts with a present option
+  (`Validator::is_missing_required_ok`), so `--input.fs.ext x --input.git.ref r` was accepted and `x` ignored.
 
 What is *not* modelled (library code or other properties): TOML and clap decoding themselves, the
 timestamp grammar (`Env.tsOk`), the price-db parser (`Env.dbOk`), identifier validity
@@ -232,9 +235,11 @@ def clapConflicts (c : CliOpts) : Bool :=
   (c.inputFile.isSome && (c.inputStorage.isSome || fsAny c || gitAny c)) ||
   (c.inputStorage.isSome && (fsAny c || gitAny c)) ||
   (c.inputFsDir.isSome && gitAny c) ||
+  (c.inputFsExt.isSome && gitAny c) ||
   (c.inputGitRef.isSome && c.inputGitCommit.isSome)
 
-/-- `requires` -/
+/-- `requires`. (Clap does not report a missing required argument that conflicts with a present one; with
+    the conflicts above every such case is a conflict error anyway, so the plain reading is exact.) -/
 def clapRequires (c : CliOpts) : Bool :=
   (!c.inputFsDir.isSome || c.inputFsExt.isSome) &&
   (!c.inputFsExt.isSome || c.inputFsDir.isSome) &&
